@@ -11,6 +11,8 @@ import IslaVerif.Driver.C05
 import IslaVerif.Driver.C11
 import IslaVerif.Driver.Sem
 import IslaVerif.Driver.C02
+import IslaVerif.Driver.TreeOps
+import IslaVerif.Driver.Alpha
 namespace IslaVerif.Driver
 open IslaVerif
 
@@ -28,6 +30,8 @@ def dispatch : Sexp → Sexp
   | .list (.atom "c11" :: rest) => C11.handle rest
   | .list (.atom "sem" :: rest) => SemD.handle rest
   | .list (.atom "c02" :: rest) => C02.handle rest
+  | .list (.atom "tree" :: rest) => TreeOpsD.handle rest
+  | .list (.atom "alpha" :: rest) => AlphaD.handle rest
   | _ => .atom "bad-request"
 
 end IslaVerif.Driver
